@@ -571,15 +571,15 @@ def mixture_stream(w, cfg):
     th = W.stub_thermo(w, IDs)
     T = w.real('T', lo=0., lo_strict=True)
     P = w.real('P', lo=0., lo_strict=True)
-    one = w.real('one')
-    w.assume(w.eq(one, 1.))
-    w.assume(w.eq(_log(w, one), 0.))                       # A-log: log 1 = 0 (ground instance)
     inlets, amounts = [], []
     for k, ID in enumerate(IDs):
         s, lv = W.stream_on(w, f'in{k}', th, phase, T=T, P=P, present={'default': 'zero', (phase, ID): 'pos'})
         inlets.append(s); amounts.append(lv[phase, ID])
     N = w.total(amounts)
     _assume_log_monotone(w, [(v, N) for v in amounts])
+    # A-log: log 1 = 0, ground instance at the term that occurs (the sum of the normalised composition Stream.S passes on)
+    Y = w.total([v / N for v in amounts])
+    w.assume(w.Implies(w.eq(Y, 1.), w.eq(_log(w, Y), 0.)))
     S_in = [s.S for s in inlets]
     pre = [W.snapshot(s) for s in inlets]
     mixed, _ = W.stream_on(w, 'mixed', th, phase, T=T, P=P, present={'default': 'zero'})
